@@ -834,6 +834,38 @@ func (fr *frame) vspecIntrinsic(x *ssa.Call, name string, fn *ssa.Function, args
 			*c.asgOut = append(*c.asgOut, assignLoc{key: memKey(seq), ref: f.SlRef(s), region: true, lo: f.Add(off, ln), hi: f.Add(off, cp)})
 		}
 		return nil, true
+	case "SameMap":
+		return f.Eq(args[0].(*Term), args[1].(*Term)), true
+	case "AssignsMap":
+		if c.asgOut == nil {
+			return nil, true
+		}
+		m := args[0].(*Term)
+		_, _, dk, vk := c.mapSorts(x.Call.Args[0].Type())
+		*c.asgOut = append(*c.asgOut, assignLoc{key: dk, ref: m, lv: &LV{key: dk, ref: m}, sort: elemSort(c.heapSort[dk])},
+			assignLoc{key: vk, ref: m, lv: &LV{key: vk, ref: m}, sort: elemSort(c.heapSort[vk])})
+		return nil, true
+	case "MapSame", "MapSameExcept":
+		// two-state predicates on a map: compare with its content in the old state
+		m := args[0].(*Term)
+		_, _, dk, vk := c.mapSorts(x.Call.Args[0].Type())
+		dom := f.Select(c.heapGet(st, dk, c.heapSort[dk]), m)
+		val := f.Select(c.heapGet(st, vk, c.heapSort[vk]), m)
+		switch c.oldMode {
+		case 1:
+			c.oldVals[x] = Tuple{dom, val}
+			return f.True(), true
+		case 2:
+			if ov, ok := c.oldVals[x].(Tuple); ok {
+				od, ovl := ov[0].(*Term), ov[1].(*Term)
+				if name == "MapSame" {
+					return f.And(f.Eq(dom, od), f.Eq(val, ovl)), true
+				}
+				k := args[1].(*Term)
+				return f.And(f.Eq(dom, f.Store(od, k, f.Select(dom, k))), f.Eq(val, f.Store(ovl, k, f.Select(val, k)))), true
+			}
+		}
+		return f.True(), true
 	case "AssignsGhost":
 		if c.asgOut == nil || c.lastGhost == nil {
 			return nil, true
